@@ -907,7 +907,7 @@ async fn same_answers(
                 acc.count("battery.compared.nonempty");
             }
             if a != b || ra != rb {
-                acc.violation(
+                crate::sim::violation(acc, 
                     &format!("c40/{bind_kind}-bind-answer-differs-from-anonymous"),
                     json!({"connection": log, "request": what, "result_bound": ra, "result_anonymous": rb,
                            "differences": answer_diff(&a, &b), "bound_answer": answer_json(&a), "anonymous_answer": answer_json(&b),
@@ -967,7 +967,7 @@ async fn run_connection(world: &mut World, acc: &mut Acc, rng: &mut Rng) -> Resu
                                     acc.sample(json!({"anomaly": "posix bind accepted with a secret the harness believes wrong", "connection": log}));
                                 }
                                 if flag == Some(false) {
-                                    acc.violation(
+                                    crate::sim::violation(acc, 
                                         "c40/posix-bind-accepted-while-disabled",
                                         json!({"connection": log, "explanation": "ldap_allow_unix_pw_bind is false on the domain entry but a POSIX password bind succeeded"}),
                                     );
@@ -982,7 +982,7 @@ async fn run_connection(world: &mut World, acc: &mut Acc, rng: &mut Rng) -> Resu
                                     acc.sample(json!({"anomaly": "application bind accepted with a secret the harness believes wrong", "connection": log}));
                                 }
                                 if !dump_is_member(&before, world.persons[*pi].uuid, world.apps[*ai].group) {
-                                    acc.violation(
+                                    crate::sim::violation(acc, 
                                         "c40/application-bind-accepted-for-non-member",
                                         json!({"connection": log, "person": world.persons[*pi].name, "application": world.apps[*ai].name,
                                                "explanation": "the account is not a member of the application's linked group but the application password bind succeeded"}),
@@ -1077,7 +1077,7 @@ async fn run_connection(world: &mut World, acc: &mut Acc, rng: &mut Rng) -> Resu
                                     acc.nontrivial(&format!("{}|{:?}|{}|{:?}", q.base, q.scope, q.filter.text(), q.attrs));
                                 }
                                 if *got != want {
-                                    acc.violation(
+                                    crate::sim::violation(acc, 
                                         if by_password { "c40/password-bound-ldap-search-differs-from-native-anonymous-search" } else { "c40/ldap-search-differs-from-native-anonymous-search" },
                                         json!({"connection": log, "query": query_json(&q), "differences(first=ldap,second=native)": answer_diff(got, &want),
                                                "ldap_answer": answer_json(got), "native_answer": answer_json(&want),
@@ -1159,7 +1159,7 @@ async fn run_connection(world: &mut World, acc: &mut Acc, rng: &mut Rng) -> Resu
     acc.eval();
     if before != after {
         let diff = before.diff(&after);
-        acc.violation(
+        crate::sim::violation(acc, 
             "c40/ldap-operation-changed-directory",
             json!({"connection": log, "dump_diff": diff, "explanation": "the directory dump differs before and after an LDAP connection"}),
         );
